@@ -25,7 +25,7 @@ VERIF = overlay.VERIF
 REPO = overlay.REPO
 CACHE = overlay.CACHE
 SPEC = os.path.join(VERIF, "spec")
-EVID = os.path.join(VERIF, "evidence")
+EVID = os.path.join(VERIF, "evidence") if not overlay.ALT else os.path.join(CACHE, "evidence" + overlay.ALT)
 TLA_CP = "/opt/veriftools/tla/tla2tools.jar:/opt/veriftools/tla/CommunityModules-deps.jar"
 
 SEED = int(os.environ.get("VERIF_SEED", "1") or "1")
@@ -78,7 +78,7 @@ def spec_text(modules):
 # ------------------------------------------------------------------------------------------ TLC
 
 def tlc(module, cfg_text, files=None, args=(), workers=8, heap="8g", timeout=3600, tag="tlc",
-        cache=True, key_extra="", keep_out=True, expect_ok=True, env_opts=()):
+        cache=True, key_extra="", keep_out=True, expect_ok=True, env_opts=(), post=None, pre_dirs=()):
     """Runs TLC on spec/<module>.tla with the given cfg text. `files` maps file names (created in
     the run directory) to their content. Returns the artefact directory, which contains
     out.txt.gz (full TLC output) and stats.json. Artefacts depend only on /verif, never on /repo,
@@ -101,6 +101,8 @@ def tlc(module, cfg_text, files=None, args=(), workers=8, heap="8g", timeout=360
         for name, content in files.items():
             with open(os.path.join(run, name), "w") as fh:
                 fh.write(content)
+        for d in pre_dirs:
+            os.makedirs(os.path.join(run, d), exist_ok=True)
         cmd = ["java", "-XX:+UseG1GC", "-Xmx" + heap, "-Xss64m"] + list(env_opts) + [
             "-cp", TLA_CP, "tlc2.TLC", "-workers", str(workers), "-metadir", os.path.join(run, "meta"),
             "-config", "run.cfg"] + list(map(str, args)) + [module + ".tla"]
@@ -143,6 +145,8 @@ def tlc(module, cfg_text, files=None, args=(), workers=8, heap="8g", timeout=360
                 shutil.copyfileobj(src, dst)
         for name in files:
             shutil.copy(os.path.join(run, name), os.path.join(art, name))
+        if post:
+            post(run, art)      # e.g. collects the behaviour files of a -simulate file=... run into the artefact
         with open(os.path.join(art, "run.cfg"), "w") as fh:
             fh.write(cfg_text)
         with open(os.path.join(art, "stats.json"), "w") as fh:
